@@ -702,7 +702,7 @@ pub fn run(args: &Args, out: &mut Out) {
         run_one("sb", &[t], out, &mut hist);
     }
     // 4. random structs to depth 3 with 1-6 members, arrays 1-4, nested structs, enums; all uses
-    let n = args.n.unwrap_or(if thorough { 40000 } else { 2500 });
+    let n = args.n.unwrap_or(if thorough { 150000 } else { 2500 });
     for k in 0..n {
         let usage = if k % 3 == 0 { *rng.pick(USES) } else { "sb" };
         let count = if rng.chance(1, 8) { rng.range(2, 3) } else { 1 };
